@@ -48,6 +48,8 @@ contract(f"{A}:GateKeeper.update_delta", shapes={"self": GK, "t": T.float(), "de
          raises={"ValueError": "delta_new <= 0.0"},
          ensures={"delta": "self._delta == delta_new",
                   "b2_rescale": "implies(old(self._t_pg) is not None and old(self._t_go) is not None and t < old(self._t_go), self._t_go == old(self._t_pg) + clamp(old(self._delta) / delta_new * (old(self._t_go) - old(self._t_pg)), 0.025, 1.0))",
+                  "t_go_unchanged_or_rescaled": "self._t_go == old(self._t_go) or (old(self._t_pg) is not None and old(self._t_go) is not None and self._t_go == old(self._t_pg) + clamp(old(self._delta) / delta_new * (old(self._t_go) - old(self._t_pg)), 0.025, 1.0))",
+                  "t_pg_unchanged": "self._t_pg == old(self._t_pg)",
                   "open_or_idle_unchanged": "implies(old(self._t_pg) is None or old(self._t_go) is None or t >= old(self._t_go), self._t_go == old(self._t_go))"}, **S)
 
 # ---------------------------------------------------------------- lemmas (over contracts only)
